@@ -84,7 +84,7 @@ def do_replay(prop, modname, idx, ob, outdir):
     safe = ob['name'].replace('/', '__').replace(' ', '_')
     path = os.path.join(outdir, '%s__%s.py' % (safe, ob['path'].replace('.', '_')[:60]))
     header = '# replay for failed obligation %s\n# path: %s\n# goal: %s\n# solver: %s %.3fs\n# counter-model inputs: %s\n' % (
-        ob['name'], ob['path'], (ob.get('goal') or '').replace('\n', ' '), ob['backend'], ob['secs'],
+        ob['name'], ob['path'], json.dumps(' '.join((ob.get('goal') or '').split())), ob['backend'], ob['secs'],
         json.dumps(ob.get('model'), default=str))
     script = None
     try:
